@@ -59,6 +59,11 @@ three resource dimensions per type.  A resource list is 3 tokens, `_` = key abse
   cyf <nm> m* <desired> q q q                        Plugin.Filter on the current node: `filter <0|1>`
   cyr <nm> m* <desired> q q q <ok> <k> m*            Plugin.Reserve on the current node, with the implementation's choice: checked
      against the view cycView of the current node's ledger (as alloc mode 1); the commit follows as an `add` line
+  EXTENSION 4 (Model/C07Glue.lean (c)):
+  cyrst <nu> (<rsv> <k> owner*k)*nu                  PreRestoreReservation + RestoreReservation on the current node for the pod of
+     the running cycle, which matches NONE of the node's reservations (matched = none): `ra|rb|rc 1 <rsv> …` per reservation
+     that holds devices and `rm 2 …` (mergedUnmatchedUsed) as for rorst; the amounts stay with the node until the next cyb
+     and are the preemptible amounts of the views cyf / cyr run on (cycViewR)
 After ref/add/rem/upd/del: the ledger, value-based (missing = 0), only devices with a non-zero entry:
   d <type> <minor> <total>*3 <free>*3 <used>*3        p <type> <pod> <k> (<minor> v v v)*
 then  x <wf> <exact> <sched>   the history predicates so far (histWFB / histExact / histSched of Model/C07Hist.lean, all types)
@@ -168,14 +173,15 @@ structure DState where
   pst   : PState := { designated := none, result := none }   -- extension 3: allocation result / designation of the running cycle
   parked : List (Nat × Node × Bool × Bool × Bool) := []      -- extension 3: the other nodes (index, ledger, wf, exact, sched)
   cur   : Nat := 0
+  rpre  : List (Nat × DevRes) := []   -- extension 4: node index → mergedUnmatchedUsed of the running cycle's restore state
 
 /-- apply ledger ops to one device type, evaluating `opWFB` / `opExact` on the way -/
 def applyOps (d : DState) (t : Nat) (ops : List Op) : DState :=
   if t ≥ ntypes then d else
   ops.foldl (fun d op =>
     let s := nodeGet d.node t
-    { node := nodeSet d.node t (step s op), wf := d.wf && opWFB op, exact := d.exact && opExact s op,
-      sched := d.sched && schedOK s op, cyc := d.cyc, pst := d.pst, parked := d.parked, cur := d.cur }) d
+    { d with node := nodeSet d.node t (step s op), wf := d.wf && opWFB op, exact := d.exact && opExact s op,
+             sched := d.sched && schedOK s op }) d
 
 def applyAllocs (d : DState) (p : Nat) (add : Bool) (groups : List (Nat × List (Nat × RL))) : DState :=
   groups.foldl (fun d g => applyOps d g.1 [if add then Op.add p g.2 else Op.remove p g.2]) d
@@ -284,11 +290,11 @@ def showNAnn (a : NAnn) : String :=
       s!" {e.1} " ++ " ".intercalate ((legRL e.2).map showQ) ++ " " ++ " ".intercalate ((curRL e.2).map showQ)))))
 
 /-- the hypotheses of `view_free` on the designated view of the running cycle (printed only when violated) -/
-def cycViewHyp (s : TState) (c : PState) : List String :=
-  match c.designated with
-  | none => []
-  | some des =>
-    let fd := calcFree s [] des
+def cycViewHyp (s : TState) (c : PState) (pre : DevRes := []) : List String :=
+  match c.designated, pre.isEmpty with
+  | none, true => []
+  | des, _ =>
+    let fd := calcFree s pre (des.getD [])
     if nodupB (fd.map (·.1)) && amountsOK fd then [] else ["viewhyp 0"]
 
 def runLine (d : DState) (line : String) : DState × List String :=
@@ -428,14 +434,14 @@ def runLine (d : DState) (line : String) : DState × List String :=
       | none => (d, ["bad-op"])
     else if kind = "cyb" then
       match (do let ha ← pBool; let hint ← pBool; let es ← pEntries; pEnd; pure (ha, hint, es)).run' rest with
-      | some (ha, hint, es) => ({ d with pst := cycPreFilter (if ha then some (mkMap es) else none) hint }, [])
+      | some (ha, hint, es) => ({ d with pst := cycPreFilter (if ha then some (mkMap es) else none) hint, rpre := [] }, [])
       | none => (d, ["bad-op"])
     else if kind = "cyf" then
       match (do let ms ← pNats; let desired ← pNat; let req ← pRL; pEnd; pure (ms, desired, req)).run' rest with
       | some (ms, desired, req) =>
         let a : AllocReq := { req := req, desired := desired, npcie := 0, required := [], preferred := [] }
-        let (c', v) := cycFilter (nodeGet n 0) ms a d.pst
-        ({ d with pst := c' }, cycViewHyp (nodeGet n 0) d.pst ++ [s!"filter {if v then 1 else 0}"])
+        let (c', v) := cycFilterR (nodeGet n 0) ms a d.pst (rrGet d.rpre d.cur)
+        ({ d with pst := c' }, cycViewHyp (nodeGet n 0) d.pst (rrGet d.rpre d.cur) ++ [s!"filter {if v then 1 else 0}"])
       | none => (d, ["bad-op"])
     else if kind = "cyr" then
       match (do
@@ -448,12 +454,22 @@ def runLine (d : DState) (line : String) : DState × List String :=
         -- current node's ledger; a result that survived is committed as it is
         match d.pst.result with
         | none =>
-          let w := cycView (nodeGet n 0) ms d.pst
+          let w := cycViewR (nodeGet n 0) ms d.pst (rrGet d.rpre d.cur)
           let code := checkResult w a res
           ({ d with pst := { d.pst with result := res } },
-            cycViewHyp (nodeGet n 0) d.pst ++
+            cycViewHyp (nodeGet n 0) d.pst (rrGet d.rpre d.cur) ++
             (if code = 0 then [showAlloc false res] ++ covLine w a res else [s!"alloc inconsistent {code}"]))
         | some stale => (d, [showAlloc false (some stale)])
+      | none => (d, ["bad-op"])
+    else if kind = "cyrst" then
+      match (do let u ← pRsvList; pEnd; pure u).run' rest with
+      | some u =>
+        let (_, r) := restore (nodeGet n 0) [] u
+        ({ d with rpre := rrSet d.rpre d.cur r.mergedUnmatchedUsed },
+          reusableLines 1 r.unmatched ++ [s!"rm 2 {showDR r.mergedUnmatchedUsed}"] ++
+          -- hypotheses of `unmatched_discount_val` / `unmatched_reservation_remainder_not_free`, evaluated on every
+          -- reservation of every generated restore state; printed only when violated (the implementation never prints it)
+          (if r.unmatched.all rsvOK then [] else ["rsvhyp 0"]))
       | none => (d, ["bad-op"])
     else if kind = "rvadd" || kind = "rvdel" then
       match (do
